@@ -19,15 +19,15 @@ STEPS = "as_list(all_steps_of(%s), 'ref:Step')" % SCN
 BAD_OUTCOME = ("(call_outcome(old(G_ncalls)) in (1, 2, 4) or (call_outcome(old(G_ncalls)) == 3 and "
                "not (G_ctx_scenario is not ABSENT and eff_tag(%s, 'wip'))))" % SCN)
 MATCH_COMMON = {
-    "call-logged": "G_ncalls == old(G_ncalls) + 1 and G_calls(old(G_ncalls)) is self "
-                   "and forall(lambda k: implies(k != old(G_ncalls), G_calls(k) == old(G_calls(k))))",
+    "call-logged": "G_ncalls == old(G_ncalls) + 1",
     "bad-event-iff-bad-outcome": "G_bad == old(G_bad) + (1 if %s else 0)" % BAD_OUTCOME,
     "only-skip-touches-the-model":
         "implies(call_outcome(old(G_ncalls)) != 5, unchanged('status') and unchanged('should_skip') "
         "and unchanged('_cached_status') and unchanged('skip_reason'))",
 }
 contract("abs:Match.run", trusted=True, params={"self": "ref:Match"}, pos_params=["self", "context"],
-         modifies=["G_ncalls", "G_calls", "G_bad", "*.status", "*.should_skip", "*.skip_reason", "*._cached_status"],
+         modifies=["G_ncalls", "G_bad", "*.status", "*.should_skip", "*.skip_reason", "*._cached_status"],
+         ghost_stores=[("calls", "G_ncalls", "self")],
          raises=[Raises("AssertionError", when="call_outcome(G_ncalls) == 1", ensures=MATCH_COMMON),
                  Raises("StepNotImplementedError", when="call_outcome(G_ncalls) == 3", ensures=MATCH_COMMON),
                  Raises("KeyboardInterrupt", when="call_outcome(G_ncalls) == 4", ensures=MATCH_COMMON),
@@ -37,7 +37,7 @@ contract("abs:Match.run", trusted=True, params={"self": "ref:Match"}, pos_params
              "skip-needs-a-scenario": "implies(G_ctx_scenario is ABSENT, call_outcome(old(G_ncalls)) != 5)",
              "skip-scenario-marks-unexecuted-steps-skipped":
                  "implies(call_outcome(old(G_ncalls)) == 5 and G_ctx_scenario is not ABSENT, "
-                 "%s.should_skip == True and unchanged_outside('status', %s) and "
+                 "%s.should_skip == True and unchanged_except('should_skip', G_ctx_scenario) and unchanged_outside('status', %s) and "
                  "forall(lambda k: implies(0 <= k < len(%s), %s[k].status == "
                  "ite(old(%s[k].status) in (Status.untested, Status.skipped), Status.skipped, old(%s[k].status)))))"
                  % (SCN, STEPS, STEPS, STEPS, STEPS, STEPS),
@@ -58,11 +58,11 @@ shape("Captured")
 # formatter events (broadcast to every formatter, see pyvc.stmts.broadcast_loop)
 def fmt_event(kind):
     contract("abs:fmt." + kind, trusted=True, pos_params=["arg"], defaults={"arg": None},
-             modifies=["G_nev", "G_ev_kind", "G_ev_arg"],
-             ensures={"event": "G_nev == old(G_nev) + 1 and G_ev_kind(old(G_nev)) == '%s' and G_ev_arg(old(G_nev)) is arg "
-                               "and forall(lambda k: implies(k != old(G_nev), G_ev_kind(k) == old(G_ev_kind(k)) "
-                               "and G_ev_arg(k) == old(G_ev_arg(k))))" % kind},
-             doc="formatter.%s(...) broadcast to all active formatters (A-fmt: formatters do not raise or touch the model)" % kind)
+             modifies=["G_nev"],
+             ghost_stores=[("ev_kind", "G_nev", "'%s'" % kind), ("ev_arg", "G_nev", "arg")],
+             ensures={"event": "G_nev == old(G_nev) + 1"},
+             doc="formatter.%s(...) broadcast to all active formatters: appends one event to the ghost event log "
+                 "(A-fmt: formatters do not raise or touch the model)" % kind)
 
 
 for _k in ("uri", "feature", "rule", "background", "scenario", "step", "match", "result", "eof",
@@ -98,7 +98,7 @@ contract(M + "Step.run", props=P,
          loops=[Loop(broadcast=("abs:fmt.match", "match")), Loop(broadcast=("abs:fmt.result", "result")),
                 Loop(broadcast=("abs:fmt.match", "match")), Loop(broadcast=("abs:fmt.result", "result"))],
          modifies=["G_bad", "G_nhooks", "G_hook_name", "G_hook_arg", "G_ncalls", "G_calls", "G_nev", "G_ev_kind",
-                   "G_ev_arg", "G_ctx_aborted", "G_ctx_scenario", "G_ctx_feature", "*.status", "*.hook_failed", "*.duration", "*.exception",
+                   "G_ev_arg", "G_ctx_aborted", "*.status", "*.hook_failed", "*.duration", "*.exception",
                    "*.exc_traceback", "*.error_message", "*.captured", "*.should_skip", "*.skip_reason",
                    "*._cached_status", "runner.hook_failures", "list(runner._undefined_steps)",
                    "runner.capture_controller.old_stdout", "runner.capture_controller.old_stderr",
@@ -132,6 +132,26 @@ contract(M + "Step.run", props=P,
                  "self.status == Status.skipped and %s.should_skip == True)" % (CALLED, AFTER_RAISED, K0, STEPS, STEPS, SCN),
              "failing-after-hook-gives-hook-error":
                  "implies(%s and %s, self.status == Status.hook_error)" % (DEFINED, AFTER_RAISED),
+             "other-steps-keep-their-status-unless-skipped-by-the-scenario":
+                 "forall(lambda r: implies(r != ref_of(self), field_of(r, 'status', 'Step') == old(field_of(r, 'status', 'Step')) "
+                 "or (old(field_of(r, 'status', 'Step')) in (Status.untested, Status.skipped) "
+                 "and field_of(r, 'status', 'Step') == Status.skipped)))",
+             "other-steps-change-only-to-skipped":
+                 "forall(lambda r: implies(r != ref_of(self), field_of(r, 'status', 'Step') == old(field_of(r, 'status', 'Step')) "
+                 "or field_of(r, 'status', 'Step') == Status.skipped))",
+             "other-passed-steps-stay-passed":
+                 "forall(lambda r: implies(r != ref_of(self) and old(field_of(r, 'status', 'Step')) in (Status.passed, Status.pending_warn), "
+                 "field_of(r, 'status', 'Step') == old(field_of(r, 'status', 'Step'))))",
+             "keep-going-only-with-passed-or-skipped-status":
+                 "implies(result and not %s, self.status in (Status.passed, Status.pending_warn, Status.skipped))" % DRY,
+             "skipped-status-means-the-scenario-was-skipped":
+                 "implies(self.status == Status.skipped, G_ctx_scenario is not ABSENT and %s.should_skip == True)" % SCN,
+             "should-skip-set-only-by-a-skipping-step":
+                 "forall(lambda r: field_of(r, 'should_skip') == old(field_of(r, 'should_skip')) or "
+                 "(G_ctx_scenario is not ABSENT and r == ref_of(G_ctx_scenario) and %s and call_outcome(%s) == 5))" % (CALLED, K0),
+             "only-this-steps-hook-flag-changes": "unchanged_except('hook_failed', self)",
+             "undefined-list-grows-only-for-an-undefined-step":
+                 "len(runner._undefined_steps) == old(len(runner._undefined_steps)) + (0 if %s else 1)" % DEFINED,
              # ---- C01 ------------------------------------------------------------------------------
              "failed-step-stops-the-scenario": "implies(self.status.has_failed(), result == False)",
              "keep-going-iff-not-failed": "implies(not %s, result == (not self.status.has_failed()))" % DRY,
